@@ -111,7 +111,9 @@ theorem missedMom_r2 (T : Nat) (rows : List (Row α)) : vsum (missedMom rows).r2
       | some _ => m) m).r2 T = vsum m.r2 T + lsum (rows.map fun row => match row.x with
       | none => sqErr T row.r zeroV
       | some _ => 0) by
-    rw [h Mom.zero]; simp [Mom.zero, zeroV, vsum_const_zero]
+    refine (h Mom.zero).trans ?_
+    have z : vsum (Mom.zero : Mom α).r2 T = 0 := vsum_const_zero T
+    rw [z, zero_add]
   induction rows with
   | nil => intro m; simp
   | cons row rows ih =>
@@ -129,7 +131,8 @@ theorem missedMom_n (rows : List (Row α)) : (missedMom rows).n + (present rows)
   suffices h : ∀ m : Mom α, (rows.foldl (fun m row => match row.x with
       | none => m.upd0 row.r
       | some _ => m) m).n + (present rows).length = m.n + rows.length by
-    rw [h Mom.zero]; simp [Mom.zero]
+    refine (h Mom.zero).trans ?_
+    simp [Mom.zero]
   induction rows with
   | nil => intro m; simp [present]
   | cons row rows ih =>
@@ -179,9 +182,13 @@ theorem affine_scalar_optimal (x0 x1 x2 r1 rx r2 w' b' : α) (hD : 0 < x2 * x0 -
   have hx0ne : x0 ≠ 0 := ne_of_gt hx0
   -- the normal equations
   have n1 : x2 * w + x1 * b = rx := by
-    simp only [w, b]; field_simp; ring
+    have e : x2 * w + x1 * b = rx * (x2 * x0 - x1 * x1) / (x2 * x0 - x1 * x1) := by
+      simp only [w, b]; ring
+    rw [e, mul_div_assoc, div_self hDne, mul_one]
   have n2 : x1 * w + x0 * b = r1 := by
-    simp only [w, b]; field_simp; ring
+    have e : x1 * w + x0 * b = r1 * (x2 * x0 - x1 * x1) / (x2 * x0 - x1 * x1) := by
+      simp only [w, b]; ring
+    rw [e, mul_div_assoc, div_self hDne, mul_one]
   have key : (r2 + w' * w' * x2 + b' * b' * x0 - 2 * w' * rx - 2 * b' * r1 + 2 * w' * b' * x1)
       - (r2 + w * w * x2 + b * b * x0 - 2 * w * rx - 2 * b * r1 + 2 * w * b * x1)
       = x2 * (w' - w) * (w' - w) + 2 * x1 * (w' - w) * (b' - b) + x0 * (b' - b) * (b' - b) := by
@@ -194,7 +201,7 @@ theorem affine_scalar_optimal (x0 x1 x2 r1 rx r2 w' b' : α) (hD : 0 < x2 * x0 -
           + (x2 * x0 - x1 * x1) * ((w' - w) * (w' - w)) :=
       add_nonneg (mul_self_nonneg _) (mul_nonneg (le_of_lt hD) (mul_self_nonneg _))
     rw [← e] at hr
-    exact nonneg_of_mul_nonneg_right hr hx0 |> fun h => h
+    exact nonneg_of_mul_nonneg_right hr hx0
   linarith
 
 end NanoVerif.WLearner
